@@ -30,7 +30,7 @@ theorem checkExit_ok (cs : List ConstraintSt) (i : InputSt) (hne : cs ≠ []) :
 /-- exit 0 exactly when grammar and constraints are fine and the single input is in the grammar and
 satisfies the conjunction of all constraints -/
 theorem check_exit0_iff (f : Files) :
-    checkExit f = 0 ↔ AllOk f ∧ f.input = .given true true := by
+    checkExit f = 0 ↔ AllOk f ∧ f.input = .given true .sat := by
   rcases f with ⟨g, cs, i⟩
   by_cases hne : cs = []
   · subst hne; cases g <;> simp [checkExit, AllOk, Generated.Cli.usageError]
@@ -42,7 +42,7 @@ theorem check_exit0_iff (f : Files) :
         cases i with
         | none => simp [inputExit, Generated.Cli.usageError]
         | several => simp [inputExit, Generated.Cli.usageError]
-        | given a b => cases a <;> cases b <;> simp [inputExit, AllOk, hne] <;> exact hall
+        | given a b => cases a <;> cases b <;> simp [inputExit, AllOk, hne, Generated.Cli.dataFormatError] <;> exact hall
       · have hno : ¬ ∀ c ∈ cs, c = .ok := by
           intro h; rw [(hasMalformed_false_iff cs).2 h] at hm; cases hm
         simp [Generated.Cli.dataFormatError, AllOk, hno]
@@ -52,14 +52,25 @@ theorem check_exit0_iff (f : Files) :
       | cons c cs => simp [checkExit, AllOk, Generated.Cli.usageError, Generated.Cli.dataFormatError]
 
 /-- with grammar and constraints fine and exactly one input, every other case exits 1 -/
-theorem check_exit1 (f : Files) (h : AllOk f) (inG sat : Bool) (hi : f.input = .given inG sat)
-    (hn : ¬ (inG = true ∧ sat = true)) : checkExit f = 1 := by
+theorem check_exit1 (f : Files) (h : AllOk f) (inG : Bool) (v : Verdict) (hi : f.input = .given inG v)
+    (hn : inG = false ∨ v = .unsat) : checkExit f = 1 := by
   rcases f with ⟨g, cs, i⟩
   obtain ⟨hg, hne, hall⟩ := h
   simp only at hg hi hne hall
   subst hg hi
   rw [checkExit_ok cs _ hne, (hasMalformed_false_iff cs).2 hall]
-  cases inG <;> cases sat <;> simp_all [inputExit]
+  cases inG <;> cases v <;> simp_all [inputExit]
+
+/-- a constraint that parses but cannot be evaluated on the (member) input ends with the data-format
+code as well: no traceback -/
+theorem not_evaluable_exit (f : Files) (h : AllOk f) (hi : f.input = .given true .error) :
+    checkExit f = Generated.Cli.dataFormatError := by
+  rcases f with ⟨g, cs, i⟩
+  obtain ⟨hg, hne, hall⟩ := h
+  simp only at hg hi hne hall
+  subst hg hi
+  rw [checkExit_ok cs _ hne, (hasMalformed_false_iff cs).2 hall]
+  simp [inputExit]
 
 /-- a malformed grammar or constraint (everything needed being present) ends with the data-format code -/
 theorem malformed_exit (f : Files) (hc : f.constraints ≠ [])
@@ -111,8 +122,9 @@ theorem parse_writes_iff (f : Files) : parseWritesTree f = true ↔ checkExit f 
   simp [parseWritesTree]
 
 /-! non-vacuity -/
-example : AllOk ⟨.ok, [.ok, .ok], .given true false⟩ := by simp [AllOk]
-example : checkExit ⟨.ok, [.ok, .ok], .given true false⟩ = 1 ∧ checkExit ⟨.ok, [.ok], .given true true⟩ = 0
-    ∧ checkExit ⟨.ok, [.ok, .malformed], .none⟩ = 65 ∧ checkExit ⟨.missing, [.ok], .given true true⟩ = 2 := by decide
+example : AllOk ⟨.ok, [.ok, .ok], .given true .unsat⟩ := by simp [AllOk]
+example : checkExit ⟨.ok, [.ok, .ok], .given true .unsat⟩ = 1 ∧ checkExit ⟨.ok, [.ok], .given true .sat⟩ = 0
+    ∧ checkExit ⟨.ok, [.ok, .malformed], .none⟩ = 65 ∧ checkExit ⟨.missing, [.ok], .given true .sat⟩ = 2
+    ∧ checkExit ⟨.ok, [.ok], .given true .error⟩ = 65 ∧ checkExit ⟨.ok, [.ok], .given false .error⟩ = 1 := by decide
 
 end IslaVerif.C19
